@@ -19,7 +19,7 @@ CODE = ["yowsup/layers/__init__.py:YowLayer.toLower (lock held while the lower l
         "yowsup/layers/coder/layer.py:send/write", "yowsup/layers/logger/layer.py", "yowsup/layers/protocol_iq/layer.py:sendIq", "yowsup/layers/interface/interface.py:send",
         "consonance.transport.WANoiseTransport.send + dissononce CipherState.encrypt_with_ad (real, traced)"]
 BOUNDS = {"quick": "2 threads x 2 stanzas and 3 threads x 1 stanza (application via the top layer, keep-alive via the iq layer, second application thread); all interleavings of the extracted events",
-          "thorough": "3 threads x 2 stanzas"}
+          "thorough": "up to 3 threads x 3 stanzas and 4 threads x 2 stanzas"}
 OUTSIDE = ["the handshake thread (C04, not applicable)", "atomicity below the traced events (single byte-code operations inside consonance/dissononce under the GIL)",
            "more threads / stanzas than the bound"]
 ASSUMPTIONS = ["control flow of a send is data independent (re-checked on each run by extracting every trace twice with different payloads)",
@@ -420,4 +420,8 @@ def cases(tier):
           dict(name="threads[app+keepalive+app2,1 send]", fn=h_schedules, args=(("app", "keepalive", "app2"), 1), timeout_s=900, weight=10)]
     if tier != "quick":
         cs.append(dict(name="threads[app+keepalive+app2,2 sends]", fn=h_schedules, args=(("app", "keepalive", "app2"), 2), timeout_s=3400, weight=100))
+        cs.append(dict(name="threads[app+keepalive,3 sends]", fn=h_schedules, args=(("app", "keepalive"), 3), timeout_s=3400, weight=100))
+        cs.append(dict(name="threads[app+keepalive+app2+app,1 send]", fn=h_schedules, args=(("app", "keepalive", "app2", "app"), 1), timeout_s=3400, weight=100))
+        cs.append(dict(name="threads[app+keepalive+app2,3 sends]", fn=h_schedules, args=(("app", "keepalive", "app2"), 3), timeout_s=3400, weight=300, query_timeout_ms=1500000))
+        cs.append(dict(name="threads[app+keepalive+app2+app,2 sends]", fn=h_schedules, args=(("app", "keepalive", "app2", "app"), 2), timeout_s=3400, weight=300, query_timeout_ms=1500000))
     return cs
